@@ -325,6 +325,42 @@ func (g *gen) validUpdate(target string) *gnmi.Update {
 	return &gnmi.Update{Path: &gnmi.Path{Target: target, Elem: []*gnmi.PathElem{{Name: "cont"}, {Name: "u"}}}, Val: uv(math.MaxUint64)}
 }
 
+var contLeaves = []string{"leaf", "u", "bits", "dec", "flt", "flag", "ll", "lli", "llu", "llb", "lld", "llf", "lly", "u0", "i0", "sopt", "bopt", "yopt"}
+
+// an update of an existing model leaf with a value whose WIRE type is drawn independently of the leaf's model
+// type (uint / int / bool / float / decimal / bytes / leaf-list / string against string, bool, bytes, uint, int ...
+// leaves, with and without type options in the model entry): Set does not compare the two, the conversion
+// switches on the wire type and looks the width / precision up in the entry's type options
+func (g *gen) mismatchUpdate(target string) *gnmi.Update {
+	var p *gnmi.Path
+	k := g.pick(okValues)
+	switch g.r.Intn(8) {
+	case 0:
+		p = &gnmi.Path{Target: target, Elem: []*gnmi.PathElem{{Name: g.pick([]string{"foo", "bar"})}}}
+	case 1:
+		p = &gnmi.Path{Target: target, Elem: []*gnmi.PathElem{{Name: "list", Key: map[string]string{"k": k}}, {Name: g.pick([]string{"k", "v"})}}}
+	case 2:
+		p = &gnmi.Path{Target: target, Elem: []*gnmi.PathElem{{Name: "multi", Key: map[string]string{"a": k, "b": g.pick(okValues)}}, {Name: g.pick([]string{"a", "b", "val"})}}}
+	case 3:
+		p = &gnmi.Path{Target: target, Elem: []*gnmi.PathElem{{Name: "list", Key: map[string]string{"k": k}}, {Name: "sub", Key: map[string]string{"j": g.pick(okValues)}}, {Name: g.pick([]string{"j", "w"})}}}
+	default:
+		p = &gnmi.Path{Target: target, Elem: []*gnmi.PathElem{{Name: "cont"}, {Name: g.pick(contLeaves)}}}
+	}
+	var v *gnmi.TypedValue
+	for v == nil || v.GetJsonVal() != nil {
+		v = g.value()
+	}
+	return &gnmi.Update{Path: p, Val: v}
+}
+
+// a well-formed update: right type most of the time, any wire type otherwise
+func (g *gen) okUpdate(target string) *gnmi.Update {
+	if g.chance(3) {
+		return g.mismatchUpdate(target)
+	}
+	return g.validUpdate(target)
+}
+
 func (g *gen) setRequest() *gnmi.SetRequest {
 	r := &gnmi.SetRequest{Prefix: g.prefix(), Extension: g.exts(true)}
 	valid := g.r.Intn(3) != 0
@@ -348,14 +384,14 @@ func (g *gen) setRequest() *gnmi.SetRequest {
 	}
 	for i := 0; i < nr; i++ {
 		if valid && !g.chance(5) {
-			r.Replace = append(r.Replace, g.validUpdate(tgt))
+			r.Replace = append(r.Replace, g.okUpdate(tgt))
 		} else {
 			r.Replace = append(r.Replace, g.update())
 		}
 	}
 	for i := 0; i < nu; i++ {
 		if valid && !g.chance(5) {
-			r.Update = append(r.Update, g.validUpdate(tgt))
+			r.Update = append(r.Update, g.okUpdate(tgt))
 		} else {
 			r.Update = append(r.Update, g.update())
 		}
@@ -444,7 +480,7 @@ func (g *gen) lsqRequest() *adminapi.LeafSelectionQueryRequest {
 		tgt := g.pick([]string{r.Target, "", "t1"})
 		n := 1 + g.r.Intn(2)
 		for i := 0; i < n; i++ {
-			u := g.validUpdate(tgt)
+			u := g.okUpdate(tgt)
 			switch g.r.Intn(4) {
 			case 0:
 				cx.Replace = append(cx.Replace, u)
